@@ -7,14 +7,16 @@ Import ListNotations.
 From JV Require Import Model.PyWf Proofs.PyWfProofs.
 Open Scope N_scope.
 
-(* For every statement tree, in every loop context: if the parser and code generator accept it,
-   the emitted structure satisfies CPython's acceptance rules (break / continue inside a for of
-   the same function, distinct parameters, distinct keywords) — provided Python's identifier
-   normalisation does not alias two template names (NoAlias). *)
+(* For every statement tree, in every frame context (inside a loop body or not, loop frame or
+   not, block frame or not): if the parser and code generator accept it, the emitted structure
+   satisfies CPython's acceptance rules (break / continue inside a for of the same function,
+   distinct parameters, distinct keywords — the keywords the generator adds itself, caller /
+   _loop_vars / _block_vars, included) — provided Python's identifier normalisation does not
+   alias two template names (NoAlias). *)
 Theorem C01_gen_wf_partial :
   forall (pynorm : name -> name), (forall a b, pynorm a = pynorm b -> a = b) ->
-  forall (s : stmt) (in_loop : bool) (t : list py),
-    gen in_loop s = Ok t -> forallb (py_ok pynorm in_loop) t = true.
+  forall (s : stmt) (in_loop loop_frame block_frame : bool) (t : list py),
+    gen in_loop loop_frame block_frame s = Ok t -> forallb (py_ok pynorm in_loop) t = true.
 Proof. exact gen_wf. Qed.
 Print Assumptions C01_gen_wf_partial.
 
@@ -23,23 +25,39 @@ Print Assumptions C01_gen_wf_partial.
    by the Python compiler.  Recorded as known finding C01-nfkc-params. *)
 Definition toy_norm (n : name) : name := if n =? 9 then 8 else n.
 Theorem C01_gen_wf_refuted_alias :
-  exists s t, gen false s = Ok t /\ forallb (py_ok toy_norm false) t = false.
+  exists s t, gen false false false s = Ok t /\ forallb (py_ok toy_norm false) t = false.
 Proof. exists (SMacro [8; 9] [SText]), [PDef [8; 9] [PSimple]; PSimple]. split; vm_compute; reflexivity. Qed.
 Print Assumptions C01_gen_wf_refuted_alias.
 
 (* break / continue are rejected exactly where no for statement of the same emitted function
    encloses them: top level, macro / call block / block bodies, else of a recursive loop *)
-Theorem C01_loopctl_rejected_outside :
-  gen false SBreak = SyntaxErr /\
-  (forall b, gen true (SMacro [] [SBreak]) = SyntaxErr /\ gen b (SFor false [SMacro [] [SContinue]] []) = SyntaxErr) /\
-  gen true (SFor true [] [SBreak]) = SyntaxErr /\
-  gen false (SFor false [] [SContinue]) = SyntaxErr /\
-  gen true (SBlock [SBreak]) = SyntaxErr.
-Proof. repeat split; reflexivity. Qed.
+Theorem C01_loopctl_rejected_outside : forall lf bf,
+  gen false lf bf SBreak = SyntaxErr /\
+  (forall b, gen true lf bf (SMacro [] [SBreak]) = SyntaxErr /\ gen b lf bf (SFor false [SMacro [] [SContinue]] []) = SyntaxErr) /\
+  gen true lf bf (SFor true [] [SBreak]) = SyntaxErr /\
+  gen false lf bf (SFor false [] [SContinue]) = SyntaxErr /\
+  gen true lf bf (SBlock [SBreak]) = SyntaxErr.
+Proof. intros lf bf. repeat split; reflexivity. Qed.
+
+(* a keyword the generator passes itself is refused when given explicitly exactly where the
+   generator passes it: caller= on the call of a call block, _loop_vars= directly in a loop body
+   (also under if / autoescape), _block_vars= directly in a block; elsewhere (top level, inside a
+   with / macro nested in the loop, in the loop's else) the same keyword is an ordinary one
+   (repaired by the fix: commit 9fa25ee; before it the emitted call repeated the keyword) *)
+Theorem C01_engine_keywords :
+  gen false false false (SCallBlock [] [CALLER] []) = SyntaxErr /\
+  gen false false false (SFor false [SIf [SSame [SCallKw [LOOPVARS]]] []] []) = SyntaxErr /\
+  gen false false false (SBlock [SCallKw [BLOCKVARS]]) = SyntaxErr /\
+  gen false false false (SCallKw [CALLER; LOOPVARS; BLOCKVARS]) = Ok [PCall [CALLER; LOOPVARS; BLOCKVARS]] /\
+  gen false false false (SFor false [SInline true [SCallKw [LOOPVARS]]; SCallKw [BLOCKVARS]] [SCallKw [LOOPVARS]])
+    = Ok [PFor [PCall [LOOPVARS]; PCall [BLOCKVARS; LOOPVARS]]; PIf [PCall [LOOPVARS]]] /\
+  gen false false false (SBlock [SFor false [SCallKw [BLOCKVARS]] []; SCallBlock [] [] []])
+    = Ok [PDef [] [PFor [PCall [BLOCKVARS; LOOPVARS]]; PIf []; PDef [] []; PCall [CALLER; BLOCKVARS]]; PSimple].
+Proof. repeat split; vm_compute; reflexivity. Qed.
 
 (* non-vacuity: a nested program with loop control in every accepted position *)
 Example C01_example :
-  gen false (SFor false [SIf [SBreak] [SInline [SContinue]]; SFor true [SBreak] [SFor false [SContinue] []]]
+  gen false false false (SFor false [SIf [SBreak] [SInline false [SContinue]]; SFor true [SBreak] [SFor false [SContinue] []]]
                         [SText])
   = Ok [PFor [PIf [PBreak]; PIf [PContinue];
               PDef [] [PFor [PBreak]; PIf [PFor [PContinue]; PIf []]]; PSimple];
